@@ -352,8 +352,13 @@ func (e *Engine) isSpecHelper(id *ast.Ident) bool {
 }
 
 func (e *Engine) evOld(x ast.Expr) Value {
-	// evaluate in the entry state; locals assigned since then are invisible, parameters have entry values
-	return e.ev(x, e.entry.clone())
+	// evaluate in the entry state; locals assigned since then are invisible, parameters have entry values;
+	// variables bound by an enclosing quantifier stay visible
+	s := e.entry.clone()
+	for _, b := range e.boundVars {
+		s.vars[b.obj] = b.val
+	}
+	return e.ev(x, s)
 }
 
 func (e *Engine) evQuant(kind string, c *ast.CallExpr, st *State) Value {
@@ -374,11 +379,13 @@ func (e *Engine) evQuant(kind string, c *ast.CallExpr, st *State) Value {
 	bv := fmt.Sprintf("q!%s!%d", param.Name, e.nfresh)
 	s2 := st.clone()
 	s2.vars[obj] = Value{bv, obj.Type()}
+	e.boundVars = append(e.boundVars, boundVar{obj, Value{bv, obj.Type()}})
 	e.spec++
 	e.bound++
 	body := e.ev(ret.Results[0], s2)
 	e.bound--
 	e.spec--
+	e.boundVars = e.boundVars[:len(e.boundVars)-1]
 	rng := and(e.le(lo.T, bv), e.lt(bv, hi.T))
 	if kind == "forall" {
 		return Value{fmt.Sprintf("(forall ((%s %s)) %s)", bv, e.isort(), implies(rng, body.T)), types.Typ[types.Bool]}
